@@ -50,7 +50,7 @@ Fixpoint loop_unstable (fuel : nat) (mean tol : Q) (small large : list witem) : 
   | S f =>
       match small, large with
       | s :: small', l :: large' =>
-          let l2 := mkW (w_id l) (w_rate l - (mean - w_rate s)) in
+          let l2 := mkW (w_id l) (Qred (w_rate l - (mean - w_rate s))) in
           let last := match small', large' with [], [] => true | _, _ => false end in
           (negb last && near (w_rate l2) mean tol)
           || (if Qlt_bool (w_rate l2) mean then loop_unstable f mean tol (l2 :: small') large'
